@@ -146,6 +146,9 @@ def run_case(case):
     bad = sorted(n for n, s in status.items() if s == "bad")
     if not good:
         return core.Result(False, ["excluded:no_chain_component"])
+    if any("," in n for n in status):
+        # --chromosome_order is a comma-separated list: a component named after a contig with a comma cannot be requested
+        return core.Result(False, ["excluded:component_name_with_comma"])
     rnd = random.Random(case["order_seed"])
     order = list(good[: rnd.randint(1, len(good))]) + list(bad[: rnd.randint(1, len(bad))] if bad else [])
     rnd.shuffle(order)
